@@ -133,7 +133,7 @@ func (o optimizer[V]) Optimize(ast parser2.AST) parser2.AST {
 
 	// evaluate const static function calls like sqrt(2)
 	if fc, ok := ast.(*parser2.FunctionCall); ok {
-		if ident, ok := fc.Func.(*parser2.Ident); ok {
+		if ident, ok := fc.Func.(*parser2.Ident); ok && ident.IsFunc {
 			if fu, ok := o.g.staticFunctions[ident.Name]; ok && fu.IsPure {
 				if fu.argsNumberNotMatching(len(fc.Args)) {
 					return ast
